@@ -40,6 +40,11 @@ constexpr bool Hilbert = (ORD == 2);
 using Config = TbfSpacialConfiguration<Real, Dim>;
 #if ORD == 2
 using SI = TbfHilbertSpaceIndex<Dim, Config, false>;
+#elif DIM == 3
+// the 3-D configurations are named through the documented default aliases of tbfglobal.hpp (what README-style user code writes):
+// an alias that does not thread the coordinate type or the periodic flag through is a configuration that does not build
+using SI = typename std::conditional<Periodic, TbfDefaultSpaceIndexTypePeriodic<Real>, TbfDefaultSpaceIndexType<Real>>::type;
+static_assert(std::is_same<SI, TbfMortonSpaceIndex<Dim, Config, Periodic>>::value, "the documented default space index alias does not name the Morton ordering of this coordinate type / periodicity");
 #else
 using SI = TbfMortonSpaceIndex<Dim, Config, Periodic>;
 #endif
